@@ -7,7 +7,7 @@ fn verif_convolve_dispatch(bits: u32, size: usize) -> (usize, u32, usize) {
     /*@EXTRACT convolve_dispatch*/
 }
 
-// @harness fft_convolve_dispatch unit=arith_fft::convolve_modn props=C20,C10
+// @harness fft_convolve_dispatch unit=arith_fft::convolve_modn props=C20,C10,C03
 #[kani::proof]
 fn fft_convolve_dispatch_ok() {
     let bits: u32 = kani::any();
